@@ -1215,7 +1215,9 @@ class Tensor:
                 if v._base is not None and v._creator is None:
                     # what the view reports as its gradient must not
                     # change when it is detached from its base
-                    v._grad = v.grad
+                    # (as an array of its own: a tensor's gradient never
+                    # borrows the memory of another tensor's gradient)
+                    v._grad = None if v.grad is None else np.copy(v.grad)
                     v._view_grad = None
                     v._base = None
 
